@@ -13,6 +13,7 @@ import (
 	"verif/internal/fw"
 	"verif/internal/gen"
 	"verif/internal/jsonorder"
+	"verif/internal/snap"
 )
 
 // C19: Marshal output is deterministic and honours PropertyOrder.
@@ -27,7 +28,7 @@ func (c19) Cases(t fw.Tier) int {
 func (c19) Processes(t fw.Tier) int { return tierN(t, 2, 4) }
 func (c19) Rule() string {
 	return "each case builds a Schema tree with 0-8 properties per level over 3 levels (also below items / allOf / $defs / additionalProperties), each level with its own PropertyOrder: " +
-		"a permutation, a subset, a superset with absent names, nil, empty, or (10%) a list with duplicates; other fields are populated by the reflective generator. " +
+		"a permutation, a subset, a superset with absent names, a long list of 17-40 entries over few properties, a prefix of one backing array shared between nodes (spare capacity behind it), nil, empty, or a list with duplicates; the Schema value is snapshotted around the Marshal calls and must not change; other fields are populated by the reflective generator. " +
 		"Marshal is called 8 times in-process (bytes must be identical) and the same cases are marshaled in a second/third/fourth process whose digests must agree (randomised map iteration, fresh hash seeds). " +
 		"The key order of every \"properties\" object is extracted at token level and compared with the rule computed from the Schema value: listed names that exist, in list order, then the remaining names ascending. Lists with duplicates must make Marshal fail. " +
 		"Non-trivial: >=3 properties and an order that is not already ascending; distinct by (n, |order ∩ props|, |order \\ props|, depth)."
@@ -43,6 +44,9 @@ type orderGen struct {
 	hasDup  bool
 	keys    []string
 	maxProp int
+	// shared is one backing array that several nodes slice their PropertyOrder from (prefixes with spare capacity):
+	// a Marshal that appends to a caller's slice would scribble over a sibling's order
+	shared []string
 }
 
 func (g *orderGen) node(depth int) *jsonschema.Schema {
@@ -69,7 +73,7 @@ func (g *orderGen) node(depth int) *jsonschema.Schema {
 		}
 	}
 	names := sortedKeys(s.Properties)
-	switch mode := r.IntN(10); mode {
+	switch mode := r.IntN(12); mode {
 	case 0: // nil
 	case 1:
 		s.PropertyOrder = []string{}
@@ -91,6 +95,24 @@ func (g *orderGen) node(depth int) *jsonschema.Schema {
 			s.PropertyOrder = append(s.PropertyOrder, names[i])
 		}
 		s.PropertyOrder = append(s.PropertyOrder, "zz-absent")
+	case 10: // a long list (>16 entries) over few properties: absent names padded in
+		for i, idx := range r.Perm(len(names)) {
+			for k := 0; k < 3+r.IntN(4); k++ {
+				s.PropertyOrder = append(s.PropertyOrder, fmt.Sprintf("pad%d_%d", i, k))
+			}
+			s.PropertyOrder = append(s.PropertyOrder, names[idx])
+		}
+		for len(s.PropertyOrder) < 17+r.IntN(20) {
+			s.PropertyOrder = append(s.PropertyOrder, fmt.Sprintf("tail%d", len(s.PropertyOrder)))
+		}
+	case 11: // a prefix of the shared backing array (spare capacity behind it belongs to other nodes' orders)
+		if g.shared == nil {
+			g.shared = make([]string, 0, 24)
+			for _, i := range r.Perm(len(orderNames)) {
+				g.shared = append(g.shared, orderNames[i])
+			}
+		}
+		s.PropertyOrder = g.shared[:r.IntN(len(g.shared)+1)]
 	case 9: // duplicates
 		for _, i := range r.Perm(len(names)) {
 			s.PropertyOrder = append(s.PropertyOrder, names[i])
@@ -219,6 +241,7 @@ func (c19) Run(c *fw.Case) {
 		o := &gen.StructOpts{Valid: true, MaxDepth: 2, NoRefs: true, PropOrder: true}
 		s.Not = gen.SchemaStruct(c.R, o)
 	}
+	before := snap.Of(s)
 	var first []byte
 	for rep := 0; rep < 8; rep++ {
 		data, err, ok := marshalSchema(c, s, "generated Schema tree with PropertyOrder")
@@ -248,6 +271,10 @@ func (c19) Run(c *fw.Case) {
 			c.Violation(fmt.Sprintf("two Marshal calls on the same value differ (repetition %d)", rep), map[string]any{"first": json.RawMessage(first), "other": json.RawMessage(data)})
 			return
 		}
+	}
+	if after := snap.Of(s); after != before {
+		c.Violation("Marshal modified the Schema value it was given (PropertyOrder slices share a backing array in this tree)", map[string]any{"marshaled": json.RawMessage(first), "before": before, "after": after})
+		return
 	}
 	j, err := jsonorder.Decode(first)
 	if err != nil {
